@@ -51,10 +51,10 @@ CHECKS = {
         technique='explicit-state breadth-first search over API histories of real objects (rebuild-by-replay, canonical '
                   'object-graph hashing), every transition compared with a reference list model',
         text='From 9 roots (Segment empty / parsed / STRICT / Z / varies-ended, Field, flat Message TOLERANT and STRICT, Group) '
-             'all histories up to depth 3 (thorough 4) over an alphabet of ~68 operations (set by name / lower case / long name / '
+             'all histories up to depth 3 (thorough 4) over an alphabet of ~73 operations (set by name / lower case / long name / '
              'element, proxy[i]=, children[i]=, add, add_<child> helper, del, del proxy[i], remove, pop, copy from a donor by '
              'proxy and by element, donor mutations, reads and a refused write through the proxy of a child - which leave temporary '
-             'traversal children behind, writes through the proxy, copies addressed by long name, a repetition replaced by another repetition of the same parent; one root whose by-name entry was emptied) are explored after canonical state merging (~16,000 states, ~125,000 '
+             'traversal children behind, writes through the proxy, copies addressed by long name, a repetition replaced by another repetition of the same parent, the proxy of a child of the same parent assigned to a repetition or to a sibling; one root whose by-name entry was emptied) are explored after canonical state merging (~16,000 states, ~125,000 '
              'transitions in quick); after each accepted transition the per-name repetition texts, the children order and the '
              'ER7 encoding of root and donor must equal those of an insertion-ordered list of (name, text) entries.',
         note='trusted: the list model (100 lines), reference encoder; 3 child names and 2 values per root; canonical key drops only the proxy memo'),
@@ -220,12 +220,15 @@ CHECKS = {
     'C08': dict(
         engine=E1, design_ref='DESIGN.md section 7 C08',
         technique='exhaustive enumeration of table-derived derivation trees (required / all / repeated groups to depth 3 / each '
-                  'optional child alone) for every message structure through the real group finder; oracle: soundness against the '
+                  'optional child alone; a Z segment after every position; a non-repeatable segment recurring inside a chain of groups) for every message structure through the real group finder; oracle: soundness against the '
                   'reference tuples, flattening, exact tree for unambiguous structures',
         text='~17,800 instances of ~1,970 structures (998 unambiguous) are parsed with find_groups=True: every element must be a '
              'declared child of its parent per the tables, flattening must give the input sequence, the encoding must equal that of '
              'find_groups=False, two parses must agree, and for structures whose segment names occur at one place the tree must be '
-             'exactly the derivation tree and draw no message- or group-level validation error.',
+             'exactly the derivation tree and draw no message- or group-level validation error. The all-children instance is parsed again with one '
+             'unlisted segment (ZZZ) after every position (quick: every third structure; must parse, keep the order and encode as with group-finding off) '
+             'and cut after each non-repeatable segment that lies in a chain of groups with a repeatable ancestor, followed by that segment once more '
+             '(also as the lean chain MSH + leading segments + S + S; ~8,400 variants whose names occur at one place): no parent may hold more children of a name than the structure allows.',
         note='trusted: instance generator and the tables; bare segment bodies; 2 known findings (D15, D16)'),
     'C04': dict(
         engine=E1, design_ref='DESIGN.md section 7 C04',
